@@ -3,6 +3,7 @@ import json, re, os, datetime, binascii, itertools, subprocess, shutil
 from fractions import Fraction as F
 from collections import Counter, defaultdict
 from . import run, build, compare, ledger
+from .props_ledger2 import load_known_text
 
 def hx(s): return "x" + binascii.hexlify(s.encode("utf-8")).decode()
 def opt(v): return "-" if v is None else hx(v)
@@ -210,7 +211,38 @@ def cli_convert_same(ctx, cases, r):
     finally:
         shutil.rmtree(root, ignore_errors=True)
 
+def kf_cancel_sell_ambiguous_fees(rows):
+    """D21: for some (date, symbol, quantity, price) there are fewer Cancel Sell rows than Sell rows and those sells differ in fees"""
+    sells = {}; cancels = Counter()
+    try:
+        for r in rows:
+            a = (r.get("Action") or "").strip()
+            if a not in ("Sell", "Cancel Sell"): continue
+            key = (clean_date(r["Date"]), r["Symbol"].strip().upper(), clean_amount(r.get("Quantity")), clean_amount(r.get("Price")))
+            if a == "Sell":
+                f = clean_amount(r.get("Fees & Comm")) or F(0)
+                sells.setdefault(key, []).append(f if f > 0 else F(0))
+            else: cancels[key] += 1
+    except (ValueError, KeyError, AttributeError):
+        return False
+    return any(0 < cancels[k] < len(fs) and len(set(fs)) > 1 for k, fs in sells.items())
+
+def cancel_fee_probe(ctx):
+    """the reproducer of D21 on every run: the same four rows in two orders"""
+    import os
+    pa, pb = (os.path.join(build.ROOT, "corpus", "d21_cancel_fees_order_%s.json" % x) for x in "ab")
+    if not (os.path.exists(pa) and os.path.exists(pb)): return
+    cases = {x: (json.load(open(p))["BrokerageTransactions"], None) for x, p in (("a", pa), ("b", pb))}
+    _, vr = both_code(cases); ctx.evaluations += 2
+    a, b = vr["a"], vr["b"]
+    def sem(t): return (trades_of(t), dividends_of(t))
+    if a.get("ok") and b.get("ok") and sem(a["txns"]) != sem(b["txns"]):
+        kt = load_known_text("C18", "kf_cancel_sell_ambiguous_fees")
+        if kt: ctx.known(kt)
+        else: ctx.violation("order of rows changes the conversion (a Cancel Sell among sells that differ only in fees)", {"rows": cases["a"][0], "permuted": cases["b"][0], "code_base": a, "code_permuted": b}, found_input=True)
+
 def k_c18(ctx):
+    cancel_fee_probe(ctx)
     rng = ctx.rng
     cases = {}
     for i in range(ctx.n(1200, 30000)):
@@ -292,7 +324,9 @@ def k_c18(ctx):
             v = vr[vid]
             # the transactions as the property counts them: the multiset of trades, dividend and withholding totals per day and symbol
             def sem(txns): return (trades_of(txns), dividends_of(txns))
-            if not v.get("ok") or sem(v["txns"]) != sem(base["txns"]):
+            if (not v.get("ok") or sem(v["txns"]) != sem(base["txns"])) and kf_cancel_sell_ambiguous_fees(cases[cid][0]) and load_known_text("C18", "kf_cancel_sell_ambiguous_fees"):
+                ctx.known(load_known_text("C18", "kf_cancel_sell_ambiguous_fees")); ctx.count("order_dependence_of_known_class", 1)
+            elif not v.get("ok") or sem(v["txns"]) != sem(base["txns"]):
                 ctx.violation("order of rows changes the conversion: %s vs %s" % (sorted(v.get("txns", []))[:3], sorted(base["txns"])[:3]),
                               {"rows": cases[cid][0], "permuted": rows, "code_base": base, "code_permuted": v}, found_input=True)
             if cid + "#c1" in vr:
